@@ -41,7 +41,7 @@ LookupOK(rm, lk, parents, qgenes) ==
     /\ lk.genes \subseteq (Rng(rm.genes) \cap qgenes)        \* only genes known to both files
 MappingOK(lk, mp, hier) ==
     /\ mp.used \subseteq lk.genes                            \* markers used were selected
-    /\ mp.levels = hier
+    /\ Rng(mp.levels) = Rng(hier) /\ Len(mp.levels) = Len(hier)   \* every level reported once (also removed ones)
 
 PipelineErr(st, rm, lk, mp, nl, parents, qgenes, hier) ==
     IF ~StatsOK(st) THEN 1801
